@@ -1757,6 +1757,7 @@ fn generate(a: &Args) -> i32 {
     }
 
     enum_family(&mut sink, &mut o);
+    static_error_family(&mut sink, &mut o);
 
     // the recorded witnesses of the findings, every run
     for (text, _) in [("%YAML 1.2", ()), ("# c", ()), ("%日本語 x\n---\na", ())] { damaged(&mut sink, &mut o, &mut conv_budget, &mut rng, text); }
@@ -1782,6 +1783,37 @@ enum Sh { Circle(Spanned<u32>), Pair(Spanned<u32>, Spanned<u32>), Rec { w: Spann
 #[derive(Debug, Deserialize)]
 #[allow(dead_code)]
 struct EnumDoc { r: serde::de::IgnoredAny, s: Sh }
+
+#[derive(Debug, Deserialize)]
+#[allow(dead_code)]
+struct NzDoc { a: u8, k: std::num::NonZeroU8 }
+
+/// errors that Serde raises WITHOUT a location while a value is read (`invalid_value` of the `NonZero*` visitors): the
+/// location attached to them must be that of the value node, in mappings as in sequences
+fn static_error_family(sink: &mut Sink, o: &mut Oracle) {
+    let off = |l: &Location| l.span().offset() as usize;
+    for text in ["a: 1\nk:   0\n", "{a: 1, k: 0}\n", "a: 1\nk:\n  0\n", "k: 0 # c\na: 2\n"] {
+        let want = text.find("0").map(|b| text[..b].chars().count()).unwrap();
+        sink.count("static_error.map_value");
+        match serde_saphyr::from_str::<NzDoc>(text) {
+            Ok(d) => o.fail("C16-static-error-position", "zero accepted as NonZeroU8", text, format!("{d:?}"), "an error".into()),
+            Err(e) => match e.location() {
+                Some(l) if off(&l) == want => {}
+                other => o.fail("C16-static-error-at-map-value-reported-at-key", "a Serde error without location raised while a MAPPING VALUE is read is reported at the key, not at the value node (a span-carrying value there reports the value)", text,
+                                format!("{:?}", other.map(|l| show(&l))), format!("offset {want}")),
+            },
+        }
+    }
+    for text in ["[1, 0]\n", "- 1\n-   0\n"] {
+        let want = text.find("0").map(|b| text[..b].chars().count()).unwrap();
+        sink.count("static_error.seq_element");
+        if let Err(e) = serde_saphyr::from_str::<Vec<std::num::NonZeroU8>>(text) {
+            if e.location().map(|l| off(&l)) != Some(want) {
+                o.fail("C16-static-error-position", "a Serde error without location raised while a sequence element is read is not reported at the element", text, format!("{:?}", e.location().map(|l| show(&l))), format!("offset {want}"));
+            }
+        }
+    }
+}
 
 fn enum_family(sink: &mut Sink, o: &mut Oracle) {
     // (document template with {P} for the anchored payload, how the variant uses `*r`)
